@@ -85,6 +85,13 @@ CHECKS = {
              'inside/outside verdicts and totality of filtering.',
         note='Trusted: value classes are representatives; \'\' and None denote the same absent element.',
         design_ref='6/C16'),
+    'C10': dict(
+        technique='TLA+ spec Context.tla (set_location + SetContextState handler) model-checked by TLC; call sequences executed on a real provider through the real consumer context client; TLC trace validation (ContextTrace.tla)',
+        text='TLC checks OneAssoc/UnbindMarked/BindMarked exhaustively (2 context descriptors, 4 state handles, 3 calls with 1-2 proposals: new, update, associate, '
+             'disassociate, two associated for one descriptor, unknown handle) and generates call sequences; they are executed on a real SdcProvider with the tutorial role '
+             'provider (operation invoked over the loop-back SOAP path, queued processing) and TLC judges the provider context-state projection after every call.',
+        note='Trusted: mapping of provider-generated uuid handles to abstract names by order of appearance; virtual provider clock.',
+        design_ref='6/C10'),
 }
 
 NOT_YET = 'check not built yet in this round (see DESIGN.md section 10 build order); no claim made'
